@@ -275,3 +275,44 @@ def arg_casts(b, rel, prefix):
                          "rusty_basic::interpreter::variant_casts::VariantCasts::to_positive_int",
                          "rusty_basic::interpreter::variant_casts::VariantCasts::to_record_number",
                          "rusty_basic::interpreter::variant_casts::VariantCasts::to_file_handle"])
+
+
+SU_FILE = "rusty_basic/src/interpreter/string_utils.rs"
+
+
+def fix_length_kernel(b, rel, prefix, shape, length, tier, core=True):
+    """fix_length(s, n): exactly n bytes afterwards - the text up to its first NUL, cut or padded with blanks - and no internal
+    failure when the cut falls inside a multi-byte character.  shape: x = one of {a, NUL}, e = U+00E9 (two bytes); target
+    length concrete per instance."""
+    parts, decl = [], []
+    for k, c in enumerate(shape):
+        if c == "x":
+            decl.append("let s%d: bool = kani::any(); let c%d: u8 = if s%d { b'a' } else { 0 };" % (k, k, k))
+            parts.append("c%d" % k)
+        else:
+            parts += ["0xC3", "0xA9"]
+    nb = len(parts)
+    b.add(rel, "%s_fix_length_%s_to%d" % (prefix, shape or "empty", length), """
+        %(decl)s
+        let bytes: [u8; %(nb)d] = [%(arr)s];
+        let mut s: String = unsafe { String::from_utf8_unchecked(bytes.to_vec()) };
+        fix_length(&mut s, %(len)d);
+        // a STRING * n holds exactly n characters
+        assert!(s.len() == %(len)d);
+        // reference: the text up to its first NUL; whole characters are dropped from the end while it is too long; blanks fill the rest
+        let mut end = %(nb)d;
+        let mut k = %(nb)d;
+        while k > 0 { k -= 1; if bytes[k] == 0 { end = k; } }
+        let rb = s.as_bytes();
+        let mut k = 0usize;
+        while k < %(len)d {
+            if k >= end { assert!(rb[k] == b' '); }
+            else if bytes[k] < 128 { assert!(rb[k] == bytes[k]); }
+            k += 1;
+        }
+        std::mem::forget(s);
+        """ % {"decl": "\n        ".join(decl), "nb": nb, "arr": ", ".join(parts), "len": length},
+          unwind=max(nb, length) + 3, tier=tier, core=core, cost=60,
+          bounds="text shape '%s' (x = a or NUL, e = U+00E9 as two bytes), target length %d" % (shape, length),
+          functions=["rusty_basic::interpreter::string_utils::fix_length"],
+          basic='DIM c AS STRING * 4\nc = "caf" + CHR$(233) + "s"\nPRINT c')
